@@ -511,7 +511,8 @@ def gen_td_one(rng, g, els):
                 "rows": [[(None if rng.random() < 0.15 else rng.choice(pool)) for _ in vs] for _ in range(rng.choice([1, 2, 3]))]}
     if k == "union":
         return {"k": "union", "gs": [small(), small()]}
-    return {"k": "graph", "t": rng.choice([g.var(), g.var(), "g1", "g2", "a"]), "g": small()}
+    free = [v for v in g.vars if v not in all_vars(els)]
+    return {"k": "graph", "t": rng.choice(free + free + [g.var(), "g1", "g2", "a"]), "g": small()}
 
 
 def gen_td_focus(rng, g):
@@ -582,6 +583,34 @@ def gen_td_push(rng, g):
         els = [nested, {"k": "grp", "g": {"k": "group", "els": [b0]}}]
     else:       # three operands: the second join is not lazy
         els = [b0, {"k": "grp", "g": {"k": "group", "els": [{"k": "bgp", "ts": [[u, pr(), r.choice([z, o])]]}]}}, nested]
+    return {"k": "group", "els": els}
+
+
+def gen_td_graph(rng, g):
+    """GRAPH with a variable of its own: `[B0] GRAPH ?g { B1 [X] } [GRAPH ?g { B2 } | { ?g p ?u }]` — every named graph in
+    turn, the name joined in; a second GRAPH reached with ?g bound (a graph, or not a graph of the data set)"""
+    r = rng
+    vs = list(g.vars)
+    r.shuffle(vs)
+    gv, z, u = vs[0], vs[1], vs[2]
+    pr = lambda: r.choice(g.preds)      # noqa: E731
+    inner = [{"k": "bgp", "ts": [[z, pr(), u]] if r.random() < 0.8 else [[z, pr(), r.choice(g.objs)]]}]
+    if r.random() < 0.4:
+        inner.append(gen_td_one(r, g, inner))
+    gp = {"k": "graph", "t": gv, "g": {"k": "group", "els": inner}}
+    els = []
+    if r.random() < 0.5:
+        els.append({"k": "bgp", "ts": [[r.choice([z, u]), pr(), r.choice([z, u] + g.objs)]]})
+    els.append(gp)
+    x = r.random()
+    if x < 0.3:
+        els.append({"k": "graph", "t": gv, "g": {"k": "group", "els": [{"k": "bgp", "ts": [[r.choice([z, u]), pr(), r.choice(vs)]]}]}})
+    elif x < 0.45:
+        els.append({"k": "grp", "g": {"k": "group", "els": [{"k": "bgp", "ts": [[gv, pr(), u]]}]}})
+    elif x < 0.6:
+        els.insert(0, {"k": "values", "vs": [gv], "rows": [[t] for t in r.sample(["g1", "g2", "a", None], 2)]})
+    if r.random() < 0.3:
+        r.shuffle(els)
     return {"k": "group", "els": els}
 
 
@@ -751,6 +780,8 @@ def _gen_case(rng, tier, i, stream):
                 else:
                     els.append({"k": "union", "gs": [{"k": "group", "els": [td_bgp(rng, g, 1, 2)]} for _ in range(2)]})
             where = {"k": "group", "els": els}
+        elif ds and rng.random() < 0.35:
+            where = gen_td_graph(rng, g)
         elif rng.random() < 0.5:
             where = gen_td_push(rng, g)
         elif rng.random() < 0.7:
@@ -1885,7 +1916,8 @@ def rows_line(r, vs):
     rows = []
     for row in r[2]:
         d = dict(row)
-        rows.append(",".join(str(N3_NUM[d[v]]) if v in d else "-" for v in vs))
+        # (a term the data does not contain — e.g. the name of the default graph — is 0: never a model term)
+        rows.append(",".join(str(N3_NUM.get(d[v], 0)) if v in d else "-" for v in vs))
     return "rows " + " ".join(sorted(rows))
 
 
